@@ -1171,17 +1171,6 @@ static long long separation(const Node &nd, const ob::State *a, const ob::State 
     return (long long)std::min(2.0e9, std::ceil(sep * 1e9));
 }
 
-// satisfiesBounds as far as the property can ask for it: the curves of the car-like spaces leave the
-// R^2 box by construction (motion validators check that), so only their heading is judged there
-static bool inBoundsScoped(const Node &nd, const ob::State *s)
-{
-    if (nd.k == "Wrap")
-        return inBoundsScoped(nd.sub[0], s->as<ob::WrapperStateSpace::StateType>()->getState());
-    if (nd.k == "Dubins" || nd.k == "RS")
-        return nd.sub[1].sp->satisfiesBounds(s->as<ob::CompoundState>()->components[1]);
-    return nd.sp->satisfiesBounds(s);
-}
-
 // sum over the SO(3) leaves of the product of the weights on their path
 static double so3Weight(const Node &nd, double w)
 {
@@ -1318,14 +1307,14 @@ static json spaceEvent(const Shipped &sh, const Node &nd)
         res = std::max(res, 50000L);
     if (sh.floatPrec)
         res = std::max(res, 100000L);
-    bool yawOnly = hasKind(nd, "Dubins") || hasKind(nd, "RS");
+
     json ev{{"e", "Space"},          {"name", sh.name},
             {"metric", nd.sp->isMetricSpace()}, {"sym", nd.sp->hasSymmetricDistance()},
             {"ext", vt::tlcInt(std::llround(ext * 1e6))}, {"tol", tol},
             {"extChecked", sh.extChecked},      {"geo", sh.geo},
             {"exempt", nd.sp->isDiscrete() || nd.sp->isHybrid()},
             {"prec", sh.floatPrec ? "float" : "double"}, {"plain", false}, {"w", json::array()},
-            {"res", res}, {"boundsJudged", yawOnly ? "heading" : "all"}};
+            {"res", res}};
     if (ext * 1e6 * 64 > 2.0e9)
     {
         fprintf(stderr, "FRAMEWORK: extent of %s too large for 32-bit fixed point laws\n", sh.name.c_str());
@@ -1427,6 +1416,18 @@ static void canned(const std::string &name, const Node &nd, bool interp, std::ve
             p.s = 16;
             p.u = 25;
             v.push_back(p);
+            // the Klein bottle re-wraps v with its own code: across the u seam, v must come back as -pi, not +pi
+            // (from v = 3pi/4 to the mirror image of v = -pi, i.e. 0 ... probed at t = 1 and on the way)
+            Probe q{"canned-plus-pi", fixed({0.0, 2.3561944901923448}, {1.1780972450961724, -PI}, {0, 0}), true};
+            q.s = 0;
+            q.u = 64;
+            v.push_back(q);
+            // across the u seam (|du| > pi/2, own code path): v goes from 3pi/4 the short way round to the mirror
+            // image -3pi/4 of v = -pi/4 and is exactly pi at t = 1/2
+            Probe r{"canned-plus-pi", fixed({0.2, 2.3561944901923448}, {3.0, -0.78539816339744828}, {0, 0}), true};
+            r.s = 32;
+            r.u = 64;
+            v.push_back(r);
         }
         if (name == "ReedsShepp")
         {
@@ -1624,7 +1625,7 @@ static int record(const std::string &out, long n, const std::string &filter, boo
                         nd.sp->interpolate(af(), b(), t, af());
                         nd.sp->interpolate(a(), bt(), t, bt());
                         ks.push_back(k);
-                        inb.push_back(inBoundsScoped(nd, pt()) ? 1 : 0);
+                        inb.push_back(nd.sp->satisfiesBounds(pt()) ? 1 : 0);
                         dat.push_back(fx(D(a(), pt()), nf));
                         alF.push_back(sameBits(nd, af(), pt()) ? 1 : 0);
                         alT.push_back(sameBits(nd, bt(), pt()) ? 1 : 0);
@@ -1645,7 +1646,7 @@ static int record(const std::string &out, long n, const std::string &filter, boo
                               {"dab", fx(dab, nf)}, {"d0", fx(D(p0(), a()), nf)}, {"d1", fx(D(p1(), b()), nf)},
                               {"ks", ks}, {"inb", inb}, {"dat", dat}, {"alF", alF}, {"alT", alT},
                               {"s", ksn}, {"u", kun}, {"rep", fx(D(pr2(), pq()), nf)},
-                              {"inbS", inBoundsScoped(nd, ps())}, {"inbR", inBoundsScoped(nd, pr2())},
+                              {"inbS", nd.sp->satisfiesBounds(ps())}, {"inbR", nd.sp->satisfiesBounds(pr2())},
                               // some interpolant of this probe carries the angle +pi (D2)
                               {"plusPi", pp || hasPlusPiLeaf(nd, ps()) || hasPlusPiLeaf(nd, pr2())}};
                     ev["repro"] = "a=" + show(nd, a()) + " b=" + show(nd, b()) + " s=" + std::to_string(ksn) + "/64 u=" + std::to_string(kun) + "/64";
